@@ -27,6 +27,8 @@ pub struct Ctx<'g> {
 	pub duration_mode: &'static str,
 	/// how enum nodes are read: "str" | "u64"
 	pub enum_mode: &'static str,
+	/// how decimal nodes are read: "str" (deserialize_any) | "u64" | "i64" | "u128" | "i128" (the integer hints of a typed target)
+	pub decimal_mode: &'static str,
 	/// which family of serde hints the target uses:
 	///  "default": the natural hint per node (unions as enums, records as structs, arrays as seqs);
 	///  "alt": what derived Rust types use otherwise - tuples of the known length for arrays, maps for records,
@@ -41,7 +43,7 @@ pub struct Ctx<'g> {
 
 impl<'g> Ctx<'g> {
 	pub fn new(g: &'g SchemaMut) -> Self {
-		Ctx { g, input: (0, 0), ignore: vec![], duration_mode: "bytes", enum_mode: "str", hints: "default", shape: None, stats: RefCell::new(Stats::default()) }
+		Ctx { g, input: (0, 0), ignore: vec![], duration_mode: "bytes", enum_mode: "str", decimal_mode: "str", hints: "default", shape: None, stats: RefCell::new(Stats::default()) }
 	}
 	fn note_borrowed(&self, ptr: *const u8, len: usize) {
 		let a = ptr as usize;
@@ -132,7 +134,13 @@ impl<'de, 'c, 'g> DeserializeSeed<'de> for Cap<'c, 'g> {
 				"u64" => d.deserialize_u64(ScalarV { want: "enum_u64", cap: &self }),
 				_ => d.deserialize_any(ScalarV { want: "enum", cap: &self }),
 			},
-			Eff::DecimalBytes | Eff::DecimalFixed | Eff::BigDecimal => d.deserialize_any(ScalarV { want: "dec", cap: &self }),
+			Eff::DecimalBytes | Eff::DecimalFixed | Eff::BigDecimal => match self.ctx.decimal_mode {
+				"u64" => d.deserialize_u64(ScalarV { want: "dec_int", cap: &self }),
+				"i64" => d.deserialize_i64(ScalarV { want: "dec_int", cap: &self }),
+				"u128" => d.deserialize_u128(ScalarV { want: "dec_int", cap: &self }),
+				"i128" => d.deserialize_i128(ScalarV { want: "dec_int", cap: &self }),
+				_ => d.deserialize_any(ScalarV { want: "dec", cap: &self }),
+			},
 			Eff::Array if alt => match self.shape_elems() {
 				Some(es) => d.deserialize_tuple(es.len(), ArrayV { cap: &self }),
 				None => d.deserialize_seq(ArrayV { cap: &self }),
@@ -254,6 +262,13 @@ struct ScalarV<'a, 'c, 'g> {
 	cap: &'a Cap<'c, 'g>,
 }
 
+/// what a decimal was shown as under an integer hint: the visit call, the 128-bit two's complement value as 8 limbs of 16 bits
+/// (least significant first), or the text
+fn dshown(via: &str, bits: u128, txt: &str) -> J {
+	let w: Vec<u64> = (0..8).map(|i| ((bits >> (16 * i)) & 0xffff) as u64).collect();
+	json!({"t": "dshown", "via": via, "w": w, "txt": bytes_json(txt.as_bytes())})
+}
+
 fn parse_decimal_text<E: de::Error>(s: &str) -> Result<J, E> {
 	// "-123.450" -> unscaled -123450, scale 3
 	let (neg, body) = match s.strip_prefix('-') {
@@ -299,11 +314,25 @@ impl<'de, 'a, 'c, 'g> Visitor<'de> for ScalarV<'a, 'c, 'g> {
 	fn visit_i64<E: de::Error>(self, v: i64) -> Result<J, E> {
 		match self.want {
 			"i64" => Ok(json!({"t": "long", "v": limbs_i64(v)})),
+			"dec_int" => Ok(dshown("i64", v as i128 as u128, "")),
 			w => Err(de_err(format!("got i64, wanted {w}"))),
+		}
+	}
+	fn visit_i128<E: de::Error>(self, v: i128) -> Result<J, E> {
+		match self.want {
+			"dec_int" => Ok(dshown("i128", v as u128, "")),
+			w => Err(de_err(format!("got i128, wanted {w}"))),
+		}
+	}
+	fn visit_u128<E: de::Error>(self, v: u128) -> Result<J, E> {
+		match self.want {
+			"dec_int" => Ok(dshown("u128", v, "")),
+			w => Err(de_err(format!("got u128, wanted {w}"))),
 		}
 	}
 	fn visit_u64<E: de::Error>(self, v: u64) -> Result<J, E> {
 		match self.want {
+			"dec_int" => Ok(dshown("u64", v as u128, "")),
 			"enum_u64" => Ok(json!({"t": "enum", "i": v})),
 			w => Err(de_err(format!("got u64, wanted {w}"))),
 		}
@@ -337,6 +366,7 @@ impl<'de, 'a, 'c, 'g> Visitor<'de> for ScalarV<'a, 'c, 'g> {
 				}
 			}
 			"dec" => parse_decimal_text(v),
+			"dec_int" => Ok(dshown("str", 0, v)),
 			w => Err(de_err(format!("got str, wanted {w}"))),
 		}
 	}
